@@ -980,11 +980,11 @@ Definition stop_ok (desired : version) (chain : list rule) (outs : list outcome)
     match last_out outs t with
     | OExitFail | OBadResponse => m = MHookFailed
     | ONoResponse => m = MPropError
-    | OResp (Some x) _ => m = MHook x
-    | OResp None _ => False
+    | OResp (c :: x) _ => m = MHook (c :: x)
+    | OResp [] _ => False
     end
-  | StDone o => last_out outs t = OResp None o /\ is_done desired o = true
-  | StNotDone => exists o, last_out outs t = OResp None o /\ is_done desired o = false
+  | StDone o => last_out outs t = OResp [] o /\ is_done desired o = true
+  | StNotDone => exists o, last_out outs t = OResp [] o /\ is_done desired o = false
                            /\ length t = length chain
   end.
 
@@ -995,7 +995,7 @@ Lemma steps_spec desired : forall chain outs objs t s,
   /\ (chain <> [] -> t <> [])
   /\ (t = [] -> s = StNotDone /\ chain = [])
   /\ (t <> [] ->
-      (forall k, S k < length t -> exists o, nth k outs OExitFail = OResp None o /\ is_done desired o = false)
+      (forall k, S k < length t -> exists o, nth k outs OExitFail = OResp [] o /\ is_done desired o = false)
       /\ stop_ok desired chain outs t s).
 Proof.
   assert (forall o, objs_eqb o o = true) as Hrefl.
@@ -1008,21 +1008,21 @@ Proof.
               match hd OExitFail outs with
               | OExitFail | OBadResponse => m = MHookFailed
               | ONoResponse => m = MPropError
-              | OResp (Some x) _ => m = MHook x
-              | OResp None _ => False end ->
+              | OResp (c :: x) _ => m = MHook (c :: x)
+              | OResp [] _ => False end ->
               map fst t = firstn (length t) (r :: rest) /\ feeds objs outs t = true
               /\ (r :: rest <> [] -> t <> []) /\ (t = [] -> s = StNotDone /\ r :: rest = [])
-              /\ (t <> [] -> (forall k, S k < length t -> exists o, nth k outs OExitFail = OResp None o /\ is_done desired o = false)
+              /\ (t <> [] -> (forall k, S k < length t -> exists o, nth k outs OExitFail = OResp [] o /\ is_done desired o = false)
                              /\ stop_ok desired (r :: rest) outs t s)) as Gfail.
     { intros m E' Hm. inversion E'; subst. cbn [map fst length firstn feeds]. rewrite Hrefl.
       repeat split; try discriminate.
       - intros k Hk. cbn in Hk. lia.
       - unfold stop_ok, last_out. cbn [length Nat.sub]. rewrite <- hd_nth. exact Hm. }
-    destruct (hd OExitFail outs) as [| | |[m|] objs'] eqn:Eh.
+    destruct (hd OExitFail outs) as [| | |[|c m] objs'] eqn:Eh.
+    5: { apply (Gfail (MHook (c :: m))); [now symmetry | reflexivity]. }
     + apply (Gfail MHookFailed); [now symmetry | reflexivity].
     + apply (Gfail MHookFailed); [now symmetry | reflexivity].
     + apply (Gfail MPropError); [now symmetry | reflexivity].
-    + apply (Gfail (MHook m)); [now symmetry | reflexivity].
     + destruct (is_done desired objs') eqn:Ed.
       * inversion E; subst. cbn [map fst length firstn feeds]. rewrite Hrefl.
         repeat split; try discriminate.
@@ -1081,7 +1081,7 @@ Proof.
   - destruct (steps_spec _ _ _ _ _ _ Es) as (H1 & H2 & _). now split.
 Qed.
 
-Lemma is_ok_resp o objs : o = OResp None objs -> is_ok o = true.
+Lemma is_ok_resp o objs : o = OResp [] objs -> is_ok o = true.
 Proof. now intros ->. Qed.
 
 (* the position of a step that did not succeed is the last one, and the stop is a failure *)
@@ -1114,9 +1114,9 @@ Qed.
 
 Theorem failed_message_relayed desired chain outs req t a k m objs :
   convert desired chain outs req = (t, a) -> k < length t ->
-  nth k outs OExitFail = OResp (Some m) objs -> a = Failed (MHook m).
+  nth k outs OExitFail = OResp m objs -> m <> [] -> a = Failed (MHook m).
 Proof.
-  intros E Hk Eo. apply convert_cases in E. destruct E as [(_ & -> & _) | (_ & s & Es & ->)]; [cbn in Hk; lia|].
+  intros E Hk Eo Hm. destruct m as [|c m]; [now contradiction Hm|]. clear Hm. apply convert_cases in E. destruct E as [(_ & -> & _) | (_ & s & Es & ->)]; [cbn in Hk; lia|].
   assert (is_ok (nth k outs OExitFail) = false) as Hbad by now rewrite Eo.
   destruct (failure_is_last _ _ _ _ _ _ _ Es Hk Hbad) as (_ & Elast & m' & ->).
   destruct (steps_spec _ _ _ _ _ _ Es) as (_ & _ & _ & _ & H5).
@@ -1128,7 +1128,7 @@ Theorem success_iff_all_steps_and_count desired chain outs req t a objs :
   convert desired chain outs req = (t, a) ->
   (a = Success objs <->
    t <> [] /\ (forall k, k < length t -> is_ok (nth k outs OExitFail) = true)
-   /\ last_out outs t = OResp None objs /\ all_at desired objs = true /\ length objs = length req).
+   /\ last_out outs t = OResp [] objs /\ all_at desired objs = true /\ length objs = length req).
 Proof.
   intros E. apply convert_cases in E. destruct E as [(-> & -> & ->) | (Hreq & s & Es & ->)].
   - split; [discriminate | intros [H _]; now contradiction H].
@@ -1152,16 +1152,16 @@ Qed.
 Lemma list_eqb_rule_refl l : list_eqb rule_eqb l l = true.
 Proof. apply list_eqb_refl, rule_eqb_refl. Qed.
 
-Theorem handler_meets_spec desired chain outs req t a :
-  convert desired chain outs req = (t, a) -> P_handler desired chain outs req t a = true.
+Theorem handler_meets_spec dtext desired chain outs req t a :
+  convert desired chain outs req = (t, a) -> P_handler desired chain outs req t (respond dtext a) = true.
 Proof.
   intros E. pose proof (steps_in_order _ _ _ _ _ _ E) as [Hord Hfeeds].
   unfold P_handler. rewrite Hfeeds. unfold in_order. rewrite Hord, list_eqb_rule_refl. cbn [andb].
   apply convert_cases in E. destruct E as [(-> & -> & ->) | (Hreq & s & Es & ->)].
-  - cbn. destruct chain; reflexivity.
+  - cbn [respond]. unfold runs_to_end, verdict_ok. destruct chain; reflexivity.
   - destruct (steps_spec _ _ _ _ _ _ Es) as (_ & _ & H3 & H4 & H5).
     destruct t as [|i t'].
-    + destruct (H4 eq_refl) as [-> ->]. cbn. destruct req; reflexivity.
+    + destruct (H4 eq_refl) as [-> ->]. cbn [respond]. unfold runs_to_end, verdict_ok. destruct req; reflexivity.
     + destruct (H5 ltac:(discriminate)) as [_ Hstop]. unfold stop_ok in Hstop.
       assert (forall o, objs_eqb o o = true) as Hrefl.
       { intros o. apply list_eqb_refl. intros [j v]. unfold obj_eqb. cbn [fst snd].
@@ -1172,18 +1172,97 @@ Proof.
           by (destruct chain, req; reflexivity).
       rewrite andb_true_r.
       destruct s as [m | o |].
-      * destruct (last_out outs (i :: t')) as [| | |[x|] objs'] eqn:El.
+      * cbn [respond]. destruct (last_out outs (i :: t')) as [| | |[|c x] objs'] eqn:El.
         -- reflexivity.
         -- reflexivity.
         -- reflexivity.
-        -- subst m. cbn. now rewrite N.eqb_refl.
         -- destruct Hstop.
+        -- subst m. cbn [msg_text andb]. apply bytes_eqb_eq. reflexivity.
       * destruct Hstop as [-> Hd]. rewrite is_done_all_at in Hd. rewrite Hd. cbn [orb andb].
-        destruct (N.eqb (N.of_nat (length req)) (N.of_nat (length o))) eqn:Ec.
+        destruct (N.eqb (N.of_nat (length req)) (N.of_nat (length o))) eqn:Ec; cbn [respond].
         -- rewrite Hrefl, Hd. apply N.eqb_eq in Ec. rewrite <- Ec, N.eqb_refl. reflexivity.
         -- rewrite N.eqb_sym, Ec. reflexivity.
-      * destruct Hstop as (o & -> & Hd & Hlen). rewrite is_done_all_at in Hd. rewrite Hd, Hlen, Nat.eqb_refl.
-        reflexivity.
+      * destruct Hstop as (o & -> & Hd & Hlen). rewrite is_done_all_at in Hd. cbn [respond].
+        rewrite Hd, Hlen, Nat.eqb_refl. reflexivity.
+Qed.
+
+(* ================================================================= the texts (part 3 of the model) *)
+
+(* the loop fails with one of three messages; a hook's message it relays is never "" *)
+Lemma steps_failed_msg desired chain outs req t m : steps desired chain outs req = (t, StFailed m) ->
+  m = MHookFailed \/ m = MPropError \/ exists c x, m = MHook (c :: x).
+Proof.
+  intros Es. destruct (steps_spec _ _ _ _ _ _ Es) as (_ & _ & _ & H4 & H5).
+  assert (t <> []) as Hne by (intros ->; destruct (H4 eq_refl); discriminate).
+  destruct (H5 Hne) as [_ Hstop]. unfold stop_ok in Hstop.
+  destruct (last_out outs t) as [| | |[|c x] objs'].
+  - now left.
+  - now left.
+  - right. now left.
+  - destruct Hstop.
+  - right. right. now exists c, x.
+Qed.
+
+(* the layered model (event handler, then review handler) answers what [convert] answers,
+   with the text of every message written out *)
+Theorem serve_respond dtext desired chain outs req :
+  serve dtext desired chain outs req =
+  (fst (convert desired chain outs req), respond dtext (snd (convert desired chain outs req))).
+Proof.
+  unfold serve, event_handler, convert. destruct (extract req) as [|v vs].
+  - reflexivity.
+  - destruct (steps desired chain outs req) as [t s] eqn:Es. destruct s as [m | objs |].
+    + destruct (steps_failed_msg _ _ _ _ _ _ Es) as [-> | [-> | (c & x & ->)]]; reflexivity.
+    + cbn [handle_review fst snd]. destruct (N.eqb (N.of_nat (length req)) (N.of_nat (length objs))); reflexivity.
+    + reflexivity.
+Qed.
+
+Lemma serve_convert dtext desired chain outs req t r : serve dtext desired chain outs req = (t, r) ->
+  exists a, convert desired chain outs req = (t, a) /\ r = respond dtext a.
+Proof.
+  rewrite serve_respond. intros E. inversion E. exists (snd (convert desired chain outs req)).
+  split; [now destruct (convert desired chain outs req) | reflexivity].
+Qed.
+
+(* handler.go alone: a non-empty FailedMessage of the event handler's response IS the message
+   of the Failure, whatever bytes it consists of *)
+Theorem review_copies_message requested m objs : m <> [] ->
+  handle_review requested (OpResponse m objs) = RFailure m.
+Proof. intros Hm. destruct m as [|c m]; [now contradiction Hm | reflexivity]. Qed.
+
+(* the whole path: the failing hook's own message is the answer's message, byte for byte *)
+Theorem serve_message_verbatim dtext desired chain outs req t r k m objs :
+  serve dtext desired chain outs req = (t, r) -> k < length t ->
+  nth k outs OExitFail = OResp m objs -> m <> [] -> r = RFailure m.
+Proof.
+  intros E Hk Eo Hm. apply serve_convert in E. destruct E as (a & E & ->).
+  now rewrite (failed_message_relayed _ _ _ _ _ _ _ _ _ E Hk Eo Hm).
+Qed.
+
+Theorem serve_meets_spec dtext desired chain outs req t r :
+  serve dtext desired chain outs req = (t, r) -> P_handler desired chain outs req t r = true.
+Proof.
+  intros E. apply serve_convert in E. destruct E as (a & E & ->). now apply handler_meets_spec.
+Qed.
+
+Theorem serve_success_iff dtext desired chain outs req t r objs :
+  serve dtext desired chain outs req = (t, r) ->
+  (r = RSuccess objs <->
+   t <> [] /\ (forall k, k < length t -> is_ok (nth k outs OExitFail) = true)
+   /\ last_out outs t = OResp [] objs /\ all_at desired objs = true /\ length objs = length req).
+Proof.
+  intros E. apply serve_convert in E. destruct E as (a & E & ->).
+  rewrite <- (success_iff_all_steps_and_count _ _ _ _ _ _ objs E).
+  destruct a as [o | m]; cbn [respond]; split; intros H; try discriminate; inversion H; reflexivity.
+Qed.
+
+Theorem serve_stop_at_first_failure dtext desired chain outs req t r k :
+  serve dtext desired chain outs req = (t, r) -> k < length t -> is_ok (nth k outs OExitFail) = false ->
+  length t = S k /\ exists message, r = RFailure message.
+Proof.
+  intros E Hk Hbad. apply serve_convert in E. destruct E as (a & E & ->).
+  destruct (stop_at_first_failure _ _ _ _ _ _ _ E Hk Hbad) as (H1 & m & ->).
+  split; [assumption | now exists (msg_text dtext m)].
 Qed.
 
 (* ================================================================= statements for C15_Properties *)
